@@ -1185,6 +1185,10 @@ class Symbolic(
           (value.sym_parent is not self
            or root_path != value.sym_path)):
         value = value.clone()
+      elif value.sym_parent is None and value is self.sym_root:
+        # The value is the root of the tree it is inserted into: adopting it
+        # would make the tree cyclic, so a copy is inserted as well.
+        value = value.clone()
 
     if isinstance(value, TopologyAware):
       value.sym_setpath(utils.KeyPath(key, self.sym_path))
